@@ -24,7 +24,8 @@ pub struct Case {
 
 pub fn frame_of(c: &Case) -> Vec<u8> {
     match c.df {
-        11 => enc::df11(c.payload[0] & 7, c.addr, 0),
+        // all-call replies answer an interrogator: its code is overlaid on the parity (remainder = code, not 0)
+        11 => enc::df11(c.payload[0] & 7, c.addr, if c.payload[4] & 1 == 0 { 0 } else { (c.payload[5] & 0x7f) as u32 }),
         17 => {
             let me = enc::me_airborne(&enc::AirborneMe { tc: 11, ss: 0, saf: 0, alt12: enc::ac12_q(1000 + (c.payload[1] as u16)), t: 0, f: c.payload[2] & 1, lat: 1234 + c.payload[3] as u32, lon: 99 });
             enc::df17(c.payload[0] & 7, c.addr, &me)
@@ -32,7 +33,8 @@ pub fn frame_of(c: &Case) -> Vec<u8> {
         18 => {
             let me = enc::me_ident(4, 1, &[1, 2, 3, 4, 48, 49, 50, 32]);
             // PI of a valid TIS-B frame is the plain parity: unrelated to the address
-            enc::df18(c.payload[0] % 8, c.addr, &me)
+            // (DF18 has no parity gate: a quarter of the frames carry a PI that is not the plain parity)
+            if c.payload[4] & 3 == 3 { enc::df18_pi(c.payload[0] % 8, c.addr, &me, 1 + (c.payload[5] & 0x3f) as u32) } else { enc::df18(c.payload[0] % 8, c.addr, &me) }
         }
         df => enc::df_any(df, &c.payload, c.addr),
     }
@@ -124,6 +126,9 @@ pub struct E2eCase {
     pub ac_filter: Option<Vec<u8>>,
     pub via_config: bool,
     pub with_file: bool,
+    /// with a configuration file: 0 = both filters in the file, 1 = the df filter on the command line, 2 = the
+    /// aircraft filter on the command line
+    pub split: u8,
 }
 
 pub fn e2e_scenario(c: &E2eCase) -> crate::e2e::Scenario {
@@ -145,6 +150,7 @@ pub fn e2e_scenario(c: &E2eCase) -> crate::e2e::Scenario {
         update_position: false,
         with_file: c.with_file,
         via_config,
+        split: c.split,
         // the filters also decide what enters the stored history (/track): asked for the first frame's aircraft and
         // for one other aircraft of the batch
         track: {
@@ -247,11 +253,19 @@ pub fn replay_e2e(ctx: &Ctx, env: &crate::e2e::Env, sc: &crate::e2e::Scenario, r
 }
 
 fn e2e_case() -> impl Strategy<Value = E2eCase> {
-    (proptest::collection::vec(case(), 6..28), filt(), filt(), any::<bool>(), any::<bool>()).prop_map(|(mut frames, df_filter, ac_filter, via_config, with_file)| {
+    (proptest::collection::vec(case(), 6..28), filt(), filt(), any::<bool>(), any::<bool>(), 0u8..3).prop_map(|(mut frames, df_filter, ac_filter, via_config, with_file, split)| {
         // distinct frames only: a repeated frame would be merged or not by the deduplication depending on timing
         let mut seen = std::collections::BTreeSet::new();
         frames.retain(|f| seen.insert(frame_of(f)));
         // several records share the first one's address or DF, so that a filter on its value keeps more than one
+        // neighbours of the same DF and the same payload (hence the same interrogator code / parity remainder) from
+        // different aircraft
+        for i in 1..frames.len() {
+            if i % 5 == 3 {
+                frames[i].df = frames[i - 1].df;
+                frames[i].payload = frames[i - 1].payload;
+            }
+        }
         let (a0, d0) = (frames[0].addr, frames[0].df);
         for (i, f) in frames.iter_mut().enumerate() {
             if i % 3 == 1 {
@@ -269,7 +283,7 @@ fn e2e_case() -> impl Strategy<Value = E2eCase> {
                 f.addr ^= 0x8;
             }
         }
-        E2eCase { frames, df_filter, ac_filter, via_config, with_file }
+        E2eCase { frames, df_filter, ac_filter, via_config, with_file, split }
     })
 }
 
@@ -289,7 +303,7 @@ fn case() -> impl Strategy<Value = Case> {
 }
 
 pub fn run(ctx: &Ctx) {
-    ctx.set_rule("for each DF in {0,4,5,11,16,17,18,20,21}: a decodable frame with generated address and payload; df filter and aircraft filter each in {absent, empty, [own value], [other values], [others with the own value at any position]}, built as structs or through TOML like the repository test; also records whose decoding failed. Oracle: Filters::is_in == (df filter absent or empty or contains the JSON df) and (aircraft filter absent or empty or contains the JSON icao24), where the JSON is serde_json::to_value(&TimedMessage); undecoded => false. Non-trivial = configuration in which exactly one filter is non-empty; distinct by hash. Plus the full cross product of DF x 5 x 5 filter shapes x struct/TOML. End to end: batches of 6-27 distinct frames (every address-carrying DF, shared addresses / DFs, frames that do not decode) are served to the real jet1090 binary as a Beast TCP source with the filters given on the command line or in a configuration file (the only way to write an empty list); its stdout, its --output file and the stored history served by /track must contain exactly the records whose shown df / icao24 pass (completion is detected through the /all endpoint, scenarios that cannot be completed are skipped and counted).");
+    ctx.set_rule("for each DF in {0,4,5,11,16,17,18,20,21}: a decodable frame with generated address and payload; df filter and aircraft filter each in {absent, empty, [own value], [other values], [others with the own value at any position]}, built as structs or through TOML like the repository test; also records whose decoding failed. Oracle: Filters::is_in == (df filter absent or empty or contains the JSON df) and (aircraft filter absent or empty or contains the JSON icao24), where the JSON is serde_json::to_value(&TimedMessage); undecoded => false. Non-trivial = configuration in which exactly one filter is non-empty; distinct by hash. Plus the full cross product of DF x 5 x 5 filter shapes x struct/TOML. End to end: batches of 6-27 distinct frames (every address-carrying DF, shared addresses / DFs, frames that do not decode) are served to the real jet1090 binary as a Beast TCP source with the filters given on the command line, in a configuration file (the only way to write an empty list) or one in each; its stdout, its --output file and the stored history served by /track must contain exactly the records whose shown df / icao24 pass (completion is detected through the /all endpoint, scenarios that cannot be completed are skipped and counted).");
     ctx.assume("what the record 'displays' is the df / icao24 of its JSON serialisation");
     // full cross product of shapes for every DF
     let shapes: Vec<Option<Vec<u8>>> = vec![None, Some(vec![]), Some(vec![0]), Some(vec![7]), Some(vec![9, 0, 3])];
